@@ -91,7 +91,13 @@ type Wrap struct {
 	Sides []Side `json:"sides,omitempty"`
 	Pos   int    `json:"pos,omitempty"`
 	Mid   string `json:"mid,omitempty"`
+	// Rep > 0: the level is applied Rep more times (Rep+1 in all), each application wrapping the result of the one
+	// before - the compact form of a run of identical levels, so that chains of thousands of links stay small cases.
+	Rep int `json:"rep,omitempty"`
 }
+
+// MaxRep bounds Rep (a chain of MaxRep+1 links per level entry).
+const MaxRep = 20000
 
 // Level kinds.
 const (
@@ -225,6 +231,9 @@ type Chain struct {
 	Obj    *Obj   `json:"obj,omitempty"`
 	Target int    `json:"target,omitempty"`
 	Pad    string `json:"pad,omitempty"`
+	// ObjTarget > 0 (needs an object and an "obj.*" Pad place; takes precedence over Target): the object is padded
+	// until its JSON text - what EmbedObject puts between the markers - is exactly ObjTarget bytes long.
+	ObjTarget int `json:"obj_target,omitempty"`
 }
 
 // Case is a wrapping chain (Kind "chain", the inline Chain fields), a batch of chains (Kind "batch": all
@@ -267,6 +276,11 @@ type Info struct {
 	Twins     bool // two chains of a batch around different classes render byte-identical messages
 	Boundary  bool // some finished chain is within 1 byte of a power of two >= 256
 	Pads      []string
+	Links     int  // most Unwrap links between the error handed to GRPCWrap and the class (applications of levels above the innermost GRPCWrap level do not count what is below it)
+	LinksEdge bool // ... within 1 of a power of two >= 32 or of a power of ten >= 100
+	DeepFork  bool // a chain of >= 100 links with a several-%w / Join node at least 10 links away from both ends
+	ObjLen    int  // longest JSON text of an embedded object
+	ObjEdge   bool // ... ending within 8 bytes below .. 2 bytes above a multiple of 512
 }
 
 // Run executes the case.
@@ -421,6 +435,9 @@ func validate(ch Chain) {
 		if w.Kind == LGRPC && len(w.Sides) > 0 {
 			panic("a grpc level has no side branches")
 		}
+		if w.Rep < 0 || w.Rep > MaxRep {
+			panic("bad repeat count of a level")
+		}
 	}
 }
 
@@ -438,28 +455,40 @@ func assemble(ch Chain) (e, eEmb error, repaired bool) {
 			break
 		}
 		w := ch.Wraps[k]
-		next := applyLevel(w, e)
-		if strings.Count(next.Error(), marker) != markers {
-			// the texts complete a marker across a concatenation boundary: outside EmbedObject's /
-			// ExtractObject's documented format, use neutral texts for this level instead
-			next = applyLevel(neutral(w), e)
-			repaired = true
+		for r := 0; r <= w.Rep; r++ {
+			next := applyLevel(w, e)
+			if strings.Count(next.Error(), marker) != markers {
+				// the texts complete a marker across a concatenation boundary: outside EmbedObject's /
+				// ExtractObject's documented format, use neutral texts for this level instead
+				next = applyLevel(neutral(w), e)
+				repaired = true
+			}
+			e = next
 		}
-		e = next
 	}
 	return e, eEmb, repaired
 }
 
 // padded returns the chain with the padding asked for by Target/Pad applied (a copy; the case is not modified).
 func padded(ch Chain) Chain {
-	if ch.Target <= 0 {
+	target := ch.Target
+	if ch.ObjTarget > 0 {
+		if ch.Embed < 0 || !strings.HasPrefix(ch.Pad, "obj.") {
+			return ch
+		}
+		target = ch.ObjTarget
+	}
+	if target <= 0 {
 		return ch
 	}
 	measure := func(x Chain) int {
+		if ch.ObjTarget > 0 {
+			return len(js(x.Obj))
+		}
 		e, _, _ := assemble(x)
 		return len(e.Error())
 	}
-	need := ch.Target - measure(ch)
+	need := target - measure(ch)
 	if need <= 0 {
 		return ch
 	}
@@ -504,7 +533,7 @@ func padded(ch Chain) Chain {
 		}
 		ch.Obj = &o
 		if place != "obj.s" {
-			need = ch.Target - measure(ch)
+			need = target - measure(ch)
 		}
 		if need > 0 {
 			o.S += padText(need)
@@ -542,9 +571,10 @@ func runChains(chs []Chain, eager bool, info *Info) *vstat.Violation {
 		}
 		b := &built{ch: padded(ch), cls: classByName(ch.Class)}
 		bs[n] = b
-		if ch.Target > 0 {
+		if ch.Target > 0 || (ch.ObjTarget > 0 && b.ch.Embed >= 0) {
 			info.Pads = append(info.Pads, "pad:"+strings.SplitN(ch.Pad, ":", 2)[0])
 		}
+		noteLinks(info, ch)
 		if b.ch.Embed >= 0 {
 			info.BatchEmb++
 			var err error
@@ -552,6 +582,12 @@ func runChains(chs []Chain, eager bool, info *Info) *vstat.Violation {
 				panic("object is not marshalable: " + err.Error())
 			}
 			info.ObjMarker = info.ObjMarker || objHasMarker(b.ch.Obj)
+			if n := len(b.wantJSON); n > info.ObjLen {
+				info.ObjLen = n
+			}
+			if n := len(b.wantJSON); n >= 504 && ((n+8)%512 <= 10) {
+				info.ObjEdge = true
+			}
 		}
 	}
 	info.Hazards = hazards(texts...)
@@ -589,6 +625,40 @@ func runChains(chs []Chain, eager bool, info *Info) *vstat.Violation {
 		}
 	}
 	return nil
+}
+
+// noteLinks records how many Unwrap links lie between the finished chain and its class. A GRPCWrap level turns what is
+// below it into one status error, so the count restarts there.
+func noteLinks(info *Info, ch Chain) {
+	links, forkAt := 0, []int{}
+	for _, w := range ch.Wraps {
+		if w.Kind == LGRPC {
+			links, forkAt = 1, forkAt[:0]
+			continue
+		}
+		if len(w.Sides) > 0 {
+			forkAt = append(forkAt, links, links+w.Rep)
+		}
+		links += w.Rep + 1
+	}
+	if links > info.Links {
+		info.Links = links
+	}
+	for p := 32; p <= 1<<16; p *= 2 {
+		if d := links - p; d >= -1 && d <= 1 {
+			info.LinksEdge = true
+		}
+	}
+	for p := 100; p <= 100000; p *= 10 {
+		if d := links - p; d >= -1 && d <= 1 {
+			info.LinksEdge = true
+		}
+	}
+	for _, f := range forkAt {
+		if links >= 100 && f >= 10 && links-f >= 10 {
+			info.DeepFork = true
+		}
+	}
 }
 
 // noteLevel records the shape classes of one level.
@@ -810,6 +880,27 @@ func (i Info) Classes() []string {
 	if i.Boundary {
 		c = append(c, "msglen_within_1_of_power_of_two")
 	}
+	switch n := i.Links; {
+	case n >= 3000:
+		c = append(c, "links_to_class:>=3000")
+	case n >= 1000:
+		c = append(c, "links_to_class:1000..2999")
+	case n >= 100:
+		c = append(c, "links_to_class:100..999")
+	case n >= 10:
+		c = append(c, "links_to_class:10..99")
+	}
+	add(i.LinksEdge, "links_to_class_within_1_of_2^k_or_10^k")
+	add(i.DeepFork, "deep_chain_with_several_%w_or_join_node_in_the_middle")
+	switch n := i.ObjLen; {
+	case n >= 8192:
+		c = append(c, "objjson:>=8192")
+	case n >= 2048:
+		c = append(c, "objjson:2048..8191")
+	case n >= 504:
+		c = append(c, "objjson:504..2047")
+	}
+	add(i.ObjEdge, "objjson_ends_8_below_to_2_above_a_multiple_of_512")
 	c = append(c, i.Pads...)
 	return append(c, i.Hazards...)
 }
